@@ -253,6 +253,7 @@ func cmdCheck(args []string) int {
 	bySolver := map[string]int{}
 	trusted := map[string]bool{}
 	var fnsUnder []string
+	var boundedNotes []string
 	realSet := map[string]bool{}
 	var samples []interface{}
 	var knownLines, violLines []string
@@ -261,6 +262,9 @@ func cmdCheck(args []string) int {
 	for _, r := range results {
 		h := r.Harness
 		fnsUnder = append(fnsUnder, h.Name+targetSuffix(h))
+		if h.Bounded != "" {
+			boundedNotes = append(boundedNotes, h.Name+": bounded ("+h.Bounded+") - a bounded check, not counted as a proof for inputs beyond the bound")
+		}
 		for _, f := range r.RealFns {
 			realSet[f] = true
 		}
@@ -428,6 +432,7 @@ func cmdCheck(args []string) int {
 				"trusted_base":              tb,
 				"functions_under_contract":  fnsUnder,
 				"real_functions_executed":   sortedKeys(realSet),
+				"bounded_checks":            boundedNotes,
 				"harnesses":                 len(hs),
 				"vacuity_covers":            nCover,
 				"known_finding_obligations": nKnown,
